@@ -26,7 +26,7 @@ MM_FUNCS = [CLS + f for f in (
     'treatment_group_generator', 'control_group_generator',
     '_constraint_not_satisfied', 'design_within_constraints',
     'exhaustive_search.skip_if_subset', 'exhaustive_search',
-    'greedy_search')]
+    'greedy_search', 'search_results')]
 
 
 class PropertyDef:
@@ -85,7 +85,7 @@ define(
      mm(['geos_over_budget', 'geos_too_large', 'geos_must_include',
          'geos_within_constraints', 'geo_assignments',
          'treatment_group_generator', 'control_group_generator',
-         'exhaustive_search', 'greedy_search'])],
+         'exhaustive_search', 'greedy_search', 'search_results'])],
     ENGINE_TRUST + PANDAS_TRUST + [
         'TBRMMData.__init__ establishes the data invariant (bounded monitor '
         'C15 only)',
@@ -144,7 +144,7 @@ define(
     [('tbrmmdata', ['TBRMMData.aggregate_time_series',
                     'TBRMMData.aggregate_geo_share',
                     'TBRMMData.geo_index.setter'], False),
-     mm(['exhaustive_search', 'greedy_search'])],
+     mm(['exhaustive_search', 'greedy_search', 'search_results'])],
     ENGINE_TRUST + PANDAS_TRUST + [
         'copy.deepcopy returns a fresh, disjoint, field-wise equal object '
         'graph',
